@@ -381,16 +381,18 @@ def check_path(case):
             return o.violation("point:non-numeric", "point(%r) = %r" % (t, p.point(t, error=e)))
         target = t * total
         cands = []
+        gap = 0.0
         for i, (s, l) in enumerate(zip(segs, lens)):
             lo, hi = cum[i], cum[i + 1]
             if lo - 1e-12 * total <= target <= hi + 1e-12 * total:
+                gap = max(gap, c02.closure_gap(s))  # (a scaled-up arc jumps by its closure gap at both ends, see C05)
                 if l > 0:
                     f = min(1.0, max(0.0, (target - lo) / l))
                     cands.append(lib.xy(s.point(f)))
                 else:
                     cands.append(lib.xy(s.point(0.0)))
                     cands.append(lib.xy(s.end))
-        if not any(c is not None and core.pclose(q, c, tol + 1e-9 * total) for c in cands):
+        if not any(c is not None and core.pclose(q, c, tol + 1e-9 * total + gap) for c in cands):
             return o.violation("point:walk", "point(%r) = %r; by the segment lengths %r it should be one of %r" % (t, q, lens, cands))
     if known is not None:
         return o.known("KF-SUBDIVISION-LENGTH", known)
